@@ -60,6 +60,8 @@ type Chan struct {
 	// once: the receiving goroutine is modelled as running to completion at
 	// the moment of the send.
 	Handler Value
+	// tier 2 bookkeeping: values sent / received so far, receivers currently blocked
+	Sent, Recvd, RecvWaiters int
 }
 
 type mapEntry struct {
